@@ -83,8 +83,9 @@ class Environment(object):
 
     def run(self):
         with self.prepare_lock:
-            if self.prepare_thread:
-                self.prepare_thread.join()
+            thread = self.prepare_thread
+            if thread:
+                thread.join()
 
             if not hasattr(self, 'conn'):
                 self._run()
